@@ -571,7 +571,7 @@ def lemmas(tier):
         Lemma("const_bytes", const_bytes, timeout=T, dry=[{"b": b"12"}, {"b": b""}], doc={"S": ["b: every bytes of length <= 3"], "bound": "len<=3"}),
         Lemma("const_bytes_len", const_bytes_len, timeout=T, dry=[{"n": 255, "fill": 1}, {"n": 256, "fill": 0}],
               doc={"S": ["n in 250..260 (length across the 1-byte/4-byte switch)", "fill byte in {00,41,ff} (pinned)"], "bound": "constant fill"}),
-        Lemma("const_str", const_str, timeout=60 if q else 1800, dry=[{"s": "0"}, {"s": "\xe9"}], doc={"S": ["s: every str of length <= %d (full Unicode)" % STR_MAXLEN[0]], "bound": "len<=%d" % STR_MAXLEN[0]}),
+        Lemma("const_str", const_str, timeout=60 if q else 600, dry=[{"s": "0"}, {"s": "\xe9"}], doc={"S": ["s: every str of length <= %d (full Unicode)" % STR_MAXLEN[0]], "bound": "len<=%d" % STR_MAXLEN[0]}),
         Lemma("const_str_samples", const_str_samples, timeout=T, dry=[{"i": 2}], doc={"F": ["%d text-class samples" % len(STR_SAMPLES)]}),
         Lemma("const_sequence", const_sequence, timeout=T, dry=[{"i": 1, "j": 3}, {"i": 3, "j": 1}, {"i": 0, "j": 6}],
               doc={"F": ["ordered pairs from %d constants that compare equal across kinds (ints, bools, floats incl. -0.0, numeric-looking text/bytes): the second is encoded after the first in the same interpreter and must give the outcome a fresh interpreter gives" % len(SEQ_POOL)],
